@@ -16,7 +16,7 @@ use crate::util::*;
 pub const PROP: Prop = Prop {
     id: "C15",
     level: "exploration",
-    rule: "(rounds 6-7: the iterators through the std adaptors - last, nth, count, fold, zip, skip, step_by, collect; Value::list and Value::append fed from iterators without a length hint, with a lower bound of zero, exact, boxed dyn, chained, and from the list's own traversal) cases (xs, tail, indices) with xs of length 0..64 (quick) / up to 10^4 (thorough) over elements of every kind and tails that are the empty list, atoms of every kind, vectors, proper and dotted lists (which merge); association lists with duplicate keys of each name kind, non-name keys, non-pair entries and improper tails; every non-list kind as an indexing target. Oracle = Vec model: every constructor gives the same value; into_vec/to_vec/to_ref_vec, iter, list_iter (with peek/is_empty at every step), into_iter, get/index by position, name and value, is_list/is_dotted_list are compared with the model. non-trivial = |xs| >= 2 and (tail is not the empty list, or an out-of-range index, or a duplicate key); distinct by digest of the case",
+    rule: "(round 8: == and != against near relatives of each list - prefixes, an extension, another tail, one element changed - in both operand orders, on values and cons cells) (rounds 6-7: the iterators through the std adaptors - last, nth, count, fold, zip, skip, step_by, collect; Value::list and Value::append fed from iterators without a length hint, with a lower bound of zero, exact, boxed dyn, chained, and from the list's own traversal) cases (xs, tail, indices) with xs of length 0..64 (quick) / up to 10^4 (thorough) over elements of every kind and tails that are the empty list, atoms of every kind, vectors, proper and dotted lists (which merge); association lists with duplicate keys of each name kind, non-name keys, non-pair entries and improper tails; every non-list kind as an indexing target. Oracle = Vec model: every constructor gives the same value; into_vec/to_vec/to_ref_vec, iter, list_iter (with peek/is_empty at every step), into_iter, get/index by position, name and value, is_list/is_dotted_list are compared with the model. non-trivial = |xs| >= 2 and (tail is not the empty list, or an out-of-range index, or a duplicate key); distinct by digest of the case",
     assumptions: &[
         "a tail that is itself a list merges into the chain (documented for Value::append)",
         "key equality for lookup by value is Value's own ==, modelled structurally with IEEE equality on floats",
